@@ -47,3 +47,25 @@ Print Assumptions C09_similarity_keeps_real_trace.
 Print Assumptions C09_similarity_keeps_gram.
 Print Assumptions C09_cleanup_keeps_hessenberg_part.
 Print Assumptions C09_cleanup_moves_at_most_atol.
+
+From Coq Require Import Reals.
+From QV Require Import CRingR.
+From QVT Require Import EckartYoung Penrose SVUnique SVInvariance.
+Close Scope R_scope.
+(* "the same spectrum-determining invariants": a unitary similarity keeps the singular values.  If A = U diag(s) V^H then P A P^H = (P U) diag(s) (P V)^H
+   with orthonormal columns again, and EVERY factorisation of H = P A P^H with orthonormal columns and sorted non-negative values has the values s *)
+Theorem C09_similarity_keeps_singular_values n r (P U V U' V' : qmat RR) (s s' : nat -> R) :
+  meq n n (qmm n (qherm P) P) qmid ->
+  meq r r (qmm n (qherm U) U) qmid -> meq r r (qmm n (qherm V) V) qmid ->
+  meq r r (qmm n (qherm U') U') qmid -> meq r r (qmm n (qherm V') V') qmid ->
+  (forall k, k < r -> (0 <= s k)%R) -> (forall k l, k <= l -> l < r -> (s l <= s k)%R) ->
+  (forall k, k < r -> (0 <= s' k)%R) -> (forall k l, k <= l -> l < r -> (s' l <= s' k)%R) ->
+  meq n n (qmm n (qmm n P (@usv RR r U s V)) (qherm P)) (@usv RR r U' s' V') -> forall k, k < r -> s k = s' k.
+Proof.
+  intros HP HU HV HU' HV' H0 Hm H0' Hm' E k Hk.
+  destruct (left_factor_keeps_values RR n n n r P U V s HP HU) as [F1 O1].
+  destruct (right_factor_keeps_values RR n n n r (qmm n P U) V P s HP HV) as [F2 O2].
+  apply (singular_values_unique n n r (qmm n P U) (qmm n P V) U' V' s s' O1 O2 HU' HV' H0 Hm H0' Hm'); [|exact Hk].
+  rewrite <- F2, <- F1. exact E.
+Qed.
+Print Assumptions C09_similarity_keeps_singular_values.
